@@ -236,7 +236,7 @@ func (r *run) body(fs *fnState, args []reflect.Value) []reflect.Value {
 	switch {
 	case beh.K == "panic":
 		r.event(fmt.Sprintf(`{"e":"exit","fn":%d,"x":%d,"r":"panic"}`, f, x))
-		panic(UserPanic{Fn: f, X: x})
+		panic(panicValue(f, x))
 	case failing >= 0:
 		r.event(fmt.Sprintf(`{"e":"exit","fn":%d,"x":%d,"r":"err"}`, f, x))
 	default:
